@@ -164,6 +164,20 @@ func (cc *ConcCase) script(w *World, st *clientState) Script {
 				s = Step{Kind: KAssignIP, Handle: pickHandle(), IP: w.Universe[r.Intn(len(w.Universe))]}
 			case KReleaseIPs:
 				n := 1 + r.Intn(3)
+				if len(st.held) > 1 && r.Intn(4) == 0 {
+					// everything this client holds under one handle (often spans blocks)
+					h := st.held[r.Intn(len(st.held))].handle
+					var keep []heldAddr
+					for _, ha := range st.held {
+						if ha.handle == h && len(s.Rel) < 5 {
+							s.Rel = append(s.Rel, RelOpt{Addr: ha.addr, Handle: []string{"", h}[r.Intn(2)]})
+						} else {
+							keep = append(keep, ha)
+						}
+					}
+					st.held = keep
+					n = 0
+				}
 				for j := 0; j < n; j++ {
 					var ro RelOpt
 					if len(st.held) > 0 && r.Intn(100) < 70 {
@@ -300,30 +314,7 @@ func (cc *ConcCase) Run(plan RunPlan) *RunOutcome {
 			out.HandlesCmp += n
 			for _, m := range mm {
 				// Sub-classify by a recognisable cause so that a listed finding does not hide others.
-				key, why := "handle-record-disagrees-with-blocks", ""
-				for _, op := range w.Ops() {
-					if sanitizeHandle(op.Step.Handle) != m.Handle || op.Open() {
-						continue
-					}
-					got := 0
-					for _, h := range op.Acquired {
-						if h == m.Handle {
-							got++
-						}
-					}
-					if op.HandleDelta[m.Handle] <= got {
-						continue
-					}
-					if op.Step.Kind == KAssignIP && op.Conflicts > 0 {
-						key = "handle-record-overcounts-after-assignip-cas-retry"
-						why = fmt.Sprintf("; op#%d AssignIP(%s, handle %q) saw %d datastore conflict(s), retried, and left the handle record %d higher while it allocated %d address(es)", op.ID, op.Step.IP, op.Step.Handle, op.Conflicts, op.HandleDelta[m.Handle], got)
-						break
-					}
-					if op.Step.Kind == KAutoAssign {
-						key = "handle-record-overcounts-after-partial-block-autoassign"
-						why = fmt.Sprintf("; op#%d AutoAssign(handle %q, %d v4 + %d v6) raised the handle record by %d while it allocated %d address(es) %v", op.ID, op.Step.Handle, op.Step.Num4, op.Step.Num6, op.HandleDelta[m.Handle], got, op.IPs)
-					}
-				}
+				key, why := classifyHandleMismatch(w.Ops(), m.Handle)
 				out.Violations = append(out.Violations, Violation{Key: key,
 					Msg: fmt.Sprintf("at the quiescent point after phase %d handle %q records %v but the blocks hold %v (no faulted operation ever touched it)%s", ph, m.Handle, m.Record, m.Blocks, why)})
 			}
@@ -382,6 +373,46 @@ func (cc *ConcCase) Run(plan RunPlan) *RunOutcome {
 		}
 	}
 	return out
+}
+
+// classifyHandleMismatch looks for the first un-faulted operation whose own committed writes
+// changed the handle record by a different amount than the allocations of that handle it
+// committed or freed, and names the recognised patterns.
+func classifyHandleMismatch(ops []*OpRec, h string) (key, why string) {
+	key = "handle-record-disagrees-with-blocks"
+	for _, op := range ops {
+		if op.Open() || op.ID < 0 {
+			continue
+		}
+		acq, freed := 0, 0
+		for _, x := range op.Acquired {
+			if x == h {
+				acq++
+			}
+		}
+		for _, x := range op.Freed {
+			if x == h {
+				freed++
+			}
+		}
+		delta := op.HandleDelta[h]
+		if delta == acq-freed {
+			continue
+		}
+		why = fmt.Sprintf("; op#%d %s by client %d changed the handle record by %+d while its writes allocated %d and freed %d address(es) of that handle (conflicts seen: %d)",
+			op.ID, op.Step.Kind, op.Client, delta, acq, freed, op.Conflicts)
+		switch {
+		case op.Step.Kind == KAssignIP && delta > acq-freed && op.Conflicts > 0:
+			key = "handle-record-overcounts-after-assignip-cas-retry"
+		case op.Step.Kind == KAutoAssign && delta > acq-freed:
+			key = "handle-record-overcounts-after-partial-block-autoassign"
+			why += fmt.Sprintf(" (asked for %d v4 + %d v6, got %v)", op.Step.Num4, op.Step.Num6, op.IPs)
+		case op.Step.Kind == KReleaseIPs && len(op.Step.Rel) > 2 && delta > acq-freed:
+			key = "handle-record-not-decremented-by-release-with-prefetched-handles"
+		}
+		return key, why
+	}
+	return key, ""
 }
 
 func trim(s string, n int) string {
